@@ -408,7 +408,7 @@ class C18:
             "flags, option subset, content state, out form)")
     required = ("snap_recheck", "snap_info", "snap_magnet", "snap_create", "snap_rename", "create_write_events_seen",
                 "probe_path_preexisting", "probe_path_preexisting_empty", "failing_create_cases", "rename_target_exists",
-                "rename_target_is_directory",
+                "rename_target_is_directory", "rename_long_name_cases",
                 "damaged_content_cases")
     assumptions = ("directory mtimes are not part of the snapshot", "stdout/stderr go to /dev/null (never to a file in the sandbox)")
 
@@ -429,6 +429,7 @@ class C18:
             case["align"] = rng.random() < 0.2
             case["magnet"] = rng.random() < 0.2
         if cmd == "rename":
+            case["long_name"] = rng.choice([None, None, None, 240, 247, 248, 250, 255])
             case["target_exists"] = rng.random() < 0.4
             case["target_kind"] = rng.choice(["file", "file", "dir", "dir-populated"])
             case["metaname"] = rng.choice(["old.torrent", "x.torrent", "weird name.torrent"])
@@ -455,16 +456,18 @@ class C18:
             os.makedirs(os.path.join(sb, d))
         counters, viol = {}, []
         cmd = case["cmd"]
+        # only the metafile matters for rename: optionally give the torrent a name close to the file-name limit
+        tname = "L" * case["long_name"] if cmd == "rename" and case.get("long_name") else tree["name"]
         mpath = os.path.join(sb, "meta", case.get("metaname", "m.torrent"))
         if cmd not in ("create", "new", "implicit"):
             # the metafile under inspection is written by the reference encoder (independent of create)
             if tree["single"]:
-                raw = rt.build(tree["name"], single=(tree["name"], content(tree["files"][0][2], tree["files"][0][1])),
+                raw = rt.build(tname, single=(tname, content(tree["files"][0][2], tree["files"][0][1])),
                                pl=16384, version=case["version"], v2_single_length=True, announce="http://t/a",
                                announce_list=[["http://t/a", "http://t/b"]], url_list=["http://w/s"], comment="c")
             else:
                 files = [(tuple(f[0].split("/")), content(f[2], f[1])) for f in sorted(tree["files"])]
-                raw = rt.build(tree["name"], files=files, pl=16384, version=case["version"], announce="http://t/a",
+                raw = rt.build(tname, files=files, pl=16384, version=case["version"], announce="http://t/a",
                                url_list=["http://w/s"], private=True)
             with open(mpath, "wb") as fd:
                 fd.write(raw)
@@ -498,11 +501,21 @@ class C18:
             kind = "magnet"
         elif cmd == "rename":
             kind = "rename"
-            target = os.path.join(sb, "meta", tree["name"] + ".torrent")
-            if os.path.abspath(target) == os.path.abspath(mpath):
+            target = os.path.join(sb, "meta", tname + ".torrent")
+            too_long = len(os.fsencode(tname + ".torrent")) > 255
+            if case.get("long_name"):
+                counters["rename_long_name_cases"] = 1
+                for cut in (247, 246, 240, 255 - len(".torrent")):       # bystanders at plausible truncated names
+                    by = os.path.join(sb, "meta", tname[:cut] + ".torrent")
+                    if by != target and by != mpath and not os.path.exists(by):
+                        with open(by, "wb") as fd:
+                            fd.write(b"bystander " + str(cut).encode())
+            if too_long:
+                case = dict(case, target_exists=True, target_kind="unrepresentable")   # must fail, nothing may change
+            elif os.path.abspath(target) == os.path.abspath(mpath):
                 case = dict(case, target_exists=True)      # already carries its own name: nothing may change
                 counters["rename_target_exists"] = 1
-            elif case["target_exists"]:
+            elif case["target_exists"] and case.get("target_kind") != "unrepresentable":
                 if case.get("target_kind") == "dir":
                     os.makedirs(target)
                     counters["rename_target_is_directory"] = 1
@@ -516,7 +529,7 @@ class C18:
                         fd.write(b"d4:infod4:name5:othereee")
                 counters["rename_target_exists"] = 1
             else:
-                expect_added.add("meta/" + tree["name"] + ".torrent")
+                expect_added.add("meta/" + tname + ".torrent")
                 expect_removed.add("meta/" + case["metaname"])
             argv = prefix + ["rename", mpath]
         else:
